@@ -62,10 +62,29 @@ impl ExponentialBackoff {
     }
 }
 
+/// Converts seconds to a `Duration`, saturating at `Duration::MAX` instead of
+/// panicking when the value is too large (or infinite). Zero, negative and NaN
+/// inputs yield `Duration::ZERO`.
+fn duration_from_secs_f64_saturating(secs: f64) -> Duration {
+    if secs >= Duration::MAX.as_secs_f64() {
+        Duration::MAX
+    } else if secs > 0.0 {
+        Duration::from_secs_f64(secs)
+    } else {
+        Duration::ZERO
+    }
+}
+
+/// Computes `initial * multiplier^attempt` without panicking on overflow.
+fn exponential_interval(initial: Duration, multiplier: f64, attempt: usize) -> Duration {
+    let exponent = i32::try_from(attempt).unwrap_or(i32::MAX);
+    let factor = multiplier.powi(exponent);
+    duration_from_secs_f64_saturating(initial.as_secs_f64() * factor)
+}
+
 impl IntervalFunction for ExponentialBackoff {
     fn next_interval(&self, attempt: usize) -> Duration {
-        let multiplier = self.multiplier.powi(attempt as i32);
-        let interval = self.initial_interval.mul_f64(multiplier);
+        let interval = exponential_interval(self.initial_interval, self.multiplier, attempt);
 
         if let Some(max) = self.max_interval {
             interval.min(max)
@@ -119,14 +138,13 @@ impl ExponentialRandomBackoff {
         let min = duration.as_secs_f64() - delta;
         let max = duration.as_secs_f64() + delta;
         let randomized = rng.random_range(min..=max);
-        Duration::from_secs_f64(randomized.max(0.0))
+        duration_from_secs_f64_saturating(randomized)
     }
 }
 
 impl IntervalFunction for ExponentialRandomBackoff {
     fn next_interval(&self, attempt: usize) -> Duration {
-        let multiplier = self.multiplier.powi(attempt as i32);
-        let interval = self.initial_interval.mul_f64(multiplier);
+        let interval = exponential_interval(self.initial_interval, self.multiplier, attempt);
 
         let capped = if let Some(max) = self.max_interval {
             interval.min(max)
